@@ -90,7 +90,8 @@ def probe(acc, world, trace, meta, with_faults=True):
                 out = r.stdout + r.stderr
                 for n in sel:
                     j = latest[n]
-                    if (j is None or j["state"] not in simsched.ACTIVE or j["id"] in faulted_ids) and f"Target {n} could not be cancelled" not in out:
+                    reported = any(n in l and any(w in l.lower() for w in ("could not", "cannot", "can't", "unable", "not cancel", "fail", "error")) for l in out.splitlines())
+                    if (j is None or j["state"] not in simsched.ACTIVE or j["id"] in faulted_ids) and not reported:
                         viol("target that could not be cancelled is not reported", dict(args=args, target=n, output=out[-400:]), **sig)
                 # the scheduler carries the cancellations out
                 s.sim.carry_out_cancels()
